@@ -283,7 +283,7 @@ func (dr *DecodingReader) BitVector(dst *[]byte, bitLength uint64) error {
 
 func (dr *DecodingReader) BitList(dst *[]byte, bitLimit uint64) error {
 	byteLen := dr.Scope()
-	if byteLimit := (bitLimit + 7) >> 3; byteLen > byteLimit {
+	if byteLimit := (bitLimit >> 3) + 1; byteLen > byteLimit {
 		return fmt.Errorf("bitlist is too big: %d bytes, limit is %d (bitlimit %d)", byteLen, byteLimit, bitLimit)
 	}
 	// grow the destination if necessary
